@@ -665,7 +665,7 @@ class Engine:
                 code = code[0]
             taken = bool(code & 1)
             forked = bool(code & 2)
-            if self.paranoid >= 3:
+            if self.paranoid >= 3 and not assume:
                 e_ = c.e if isinstance(c, SBool) else c
                 rt_ = self._check(e_ if taken else z3.Not(e_))
                 ro_ = self._check(z3.Not(e_) if taken else e_)
